@@ -122,16 +122,6 @@ void h_SEQUENCE_decode_ber(void) {
 	VF_CANARY();
 	__CPROVER_assert(rv.code == RC_OK || rv.code == RC_WMORE || rv.code == RC_FAIL, "C04: return code is RC_OK, RC_WMORE or RC_FAIL");
 	__CPROVER_assert(rv.consumed <= size, "C04: consumed <= size");
-	struct expect e;
-	if(spec_valid(buf, size, &e)) {
-		struct T *t = (struct T *)st;
-		__CPROVER_assert(rv.code == RC_OK && rv.consumed == e.total, "C03: a valid encoding is accepted with its full length consumed");
-		if(rv.code == RC_OK) {
-			__CPROVER_assert((t->a != 0) == e.has_a && (!t->a || t->a->v == e.a), "C03: member a");
-			__CPROVER_assert((t->b != 0) == e.has_b && (!t->b || (t->b->v == e.b && t->b->tag == e.btag)), "C03: member b");
-			__CPROVER_assert(t->c.got && t->c.v == e.c, "C03: member c");
-		}
-	}
 	SEQUENCE_free(&T_td, st, ASFM_FREE_EVERYTHING);
 	free(in);
 }
@@ -145,6 +135,17 @@ void h_SEQUENCE_decode_ber_chunked(void) {
 	asn_dec_rval_t one = SEQUENCE_decode_ber(0, &T_td, &st1, buf, size, 0);
 	asn_dec_rval_t r1 = SEQUENCE_decode_ber(0, &T_td, &st2, buf, k, 0);
 	VF_CANARY();
+	/* C03 is stated here because this entry runs without allocation failures */
+	struct expect e;
+	if(spec_valid(buf, size, &e)) {
+		struct T *t = (struct T *)st1;
+		__CPROVER_assert(one.code == RC_OK && one.consumed == e.total, "C03: a valid encoding is accepted with its full length consumed");
+		if(one.code == RC_OK) {
+			__CPROVER_assert((t->a != 0) == e.has_a && (!t->a || t->a->v == e.a), "C03: member a");
+			__CPROVER_assert((t->b != 0) == e.has_b && (!t->b || (t->b->v == e.b && t->b->tag == e.btag)), "C03: member b");
+			__CPROVER_assert(t->c.got && t->c.v == e.c, "C03: member c");
+		}
+	}
 	__CPROVER_assert(r1.consumed <= k, "C05: consumed does not exceed the chunk");
 	if(one.code == RC_OK && k < one.consumed)
 		__CPROVER_assert(r1.code == RC_WMORE, "C05: a proper prefix of a valid encoding yields RC_WMORE");
